@@ -377,9 +377,11 @@ def discharge(mir, cx, fn, ex, cls, kind, bb, obj, desc, args, tests):
         if is_symbol_accessor(fn):
             ok, why = cx.dotlen_ok
             return "D-dotlen", ok, why
-        if any("HashMap::get(" in t_[0] and t_[1] == 1 for t_ in tests) and cx.roles.builder_set_goto is not None and fn.key == cx.roles.builder_set_goto.key:
+        if any(("HashMap::get(" in t_[0] and t_[1] == 1) or (t_[0].startswith("discr(HashMap::entry(") and t_[1] == 0) for t_ in tests) and cx.roles.builder_set_goto is not None and fn.key == cx.roles.builder_set_goto.key:
             return "D-gotoonce", True, "one goto per (state, nonterminal): transitions are a set keyed by (from, symbol, to) of a deterministic automaton (A-goto)"
-        if any(re.match(r"^\(param\d+(\.0)? Ge %s\(param1\)\)$" % cx.roles.sp("table_state_count"), t_[0]) for t_ in tests):
+        SCre = cx.roles.sp("table_state_count")
+        if any((re.match(r"^\(param\d+(\.0)? Ge %s\(param1\)\)$" % SCre, t_[0]) and t_[1] != 0) or (re.match(r"^\(param\d+(\.0)? Lt %s\(param1\)\)$" % SCre, t_[0]) and t_[1] == 0) for t_ in tests):
+            # `if state >= count { panic! }` or the same guard spelled `assert!(state < count)`
             return "D-tableidx", cx.stateidx_ok[0], "explicit guard `state >= state_count`; state indices are positions of the states vector (A-idx)"
         return None, False, ""
     if nm in ("unwrap", "expect") and p.startswith(("std::option::Option", "std::result::Result")):
